@@ -62,7 +62,10 @@ duct temperatures standing after each call must satisfy the same residuals
 with the coolant / gap temperatures and film coefficients they were computed
 from: rodded and simple regions solve the wall first (level-n coolant and the
 film coefficients standing before the call), the 6-node region advances its
-coolant first (coolant and film coefficient standing after the call).
+coolant first (coolant and film coefficient standing after the call).  The
+`activate` of every region is wrapped as well: at a region change the walls
+are solved without heating from the mixed coolant of the new region (k at the
+temperature DASSH hands to `_update_duct` during that call).
 """
 import math
 
@@ -538,24 +541,23 @@ def run_sweep(c):
                                for kk, v in p.items()}
             return p
 
-        def calc(dz, t_gap, h_gap, z=None, adiabatic=False, ebal=False):
-            reg = asm.active_region
-            rodded = reg.is_rodded
-            kindname = 'rodded%d' % reg.n_duct if rodded else reg.model
-            nd = reg.temp['duct_mw'].shape[0]
-            pre = {'Tc': reg.temp['coolant_int'].copy(),
-                   'kT': np.array(reg.avg_duct_mw_temp, dtype=float, copy=True)}
-            if rodded:
-                pre['h'] = np.array(reg.coolant_int_params['htc'], dtype=float, copy=True)
+        def snapshot(reg):
+            sn = {'Tc': reg.temp['coolant_int'].copy()}
+            if reg.is_rodded:
+                sn['h'] = np.array(reg.coolant_int_params['htc'], dtype=float, copy=True)
                 if reg.n_bypass > 0:
-                    pre['Tb'] = reg.temp['coolant_byp'].copy()
-                    pre['hb'] = np.array(reg.coolant_byp_params['htc'], dtype=float, copy=True)
+                    sn['Tb'] = reg.temp['coolant_byp'].copy()
+                    sn['hb'] = np.array(reg.coolant_byp_params['htc'], dtype=float, copy=True)
             else:
-                pre['h'] = float(reg.coolant_params['htc'])
-            tg = np.array(t_gap, dtype=float, copy=True)
-            hg = np.array(h_gap, dtype=float, copy=True)
-            orig_calc(dz, t_gap, h_gap, z=z, adiabatic=adiabatic, ebal=ebal)
-            q = last_power.get('q') or {}
+                sn['h'] = float(reg.coolant_params['htc'])
+            return sn
+
+        def check(reg, sn, kT, tg, hg, pd, adiabatic, event):
+            """residuals of the walls standing in `reg` against the coolant
+            state `sn`, gap state (tg, hg), duct power pd, k at kT[i]"""
+            rodded = reg.is_rodded
+            kindname = ('rodded%d' % reg.n_duct if rodded else reg.model) + event
+            nd = reg.temp['duct_mw'].shape[0]
             if rodded:
                 ctype = cell_types(reg)
                 ncell = len(ctype)
@@ -569,32 +571,25 @@ def run_sweep(c):
             for i in range(nd):
                 last = (i == nd - 1)
                 t = 0.5 * (dftf[i][1] - dftf[i][0])
-                kk = k_at(reg, float(pre['kT'][i]))
+                kk = k_at(reg, float(kT[i]))
                 if rodded:
                     if i == 0:
-                        Tci = pre['Tc'][n_int:]
-                        hi = pre['h'][1:][ctype]
+                        Tci = sn['Tc'][n_int:]
+                        hi = sn['h'][1:][ctype]
                     else:
-                        Tci = pre['Tb'][i - 1]
-                        hi = pre['hb'][i - 1][ctype]
+                        Tci = sn['Tb'][i - 1]
+                        hi = sn['hb'][i - 1][ctype]
                     if last:
                         Tco, ho = tg, hg
                     else:
-                        Tco, ho = pre['Tb'][i], pre['hb'][i][ctype]
-                    pd = q.get('duct')
+                        Tco, ho = sn['Tb'][i], sn['hb'][i][ctype]
                     if pd is None:
                         q3 = np.zeros(ncell)
                     else:
                         qa = np.array([float(reg.duct_params['q_area'][i][ty]) for ty in ctype])
                         q3 = pd[i * ncell:(i + 1) * ncell] / qa
                 else:
-                    if reg.model == '6node':
-                        # coolant advanced first; film coefficient refreshed inside the call
-                        Tci = reg.temp['coolant_int'].copy()
-                        hi = float(reg.coolant_params['htc'])
-                    else:
-                        Tci = pre['Tc']
-                        hi = pre['h']
+                    Tci, hi = sn['Tc'], sn['h']
                     Tco, ho = tg, hg
                     q3 = np.zeros(ncell)
                 res, order, fin = bvp_check(Tci, reg.temp['duct_surf'][i, 0], reg.temp['duct_mw'][i],
@@ -607,8 +602,56 @@ def run_sweep(c):
                 extra['sweep_states_by_kind'][kindname] = extra['sweep_states_by_kind'].get(kindname, 0) + 1
                 if np.any(q3 > 0):
                     extra['sweep_heated_states'] += 1
+
+        def calc(dz, t_gap, h_gap, z=None, adiabatic=False, ebal=False):
+            reg = asm.active_region
+            pre = snapshot(reg)
+            kT = np.array(reg.avg_duct_mw_temp, dtype=float, copy=True)
+            tg = np.array(t_gap, dtype=float, copy=True)
+            hg = np.array(h_gap, dtype=float, copy=True)
+            orig_calc(dz, t_gap, h_gap, z=z, adiabatic=adiabatic, ebal=ebal)
+            q = last_power.get('q') or {}
+            if (not reg.is_rodded) and reg.model == '6node':
+                # the 6-node region advances its coolant first and refreshes
+                # the film coefficient inside the call: the wall was solved
+                # from the state standing now
+                sn = snapshot(reg)
+            else:
+                # rodded / simple: wall first, from level-n coolant and the
+                # film coefficients standing before the call
+                sn = pre
+            check(reg, sn, kT, tg, hg, q.get('duct') if reg.is_rodded else None, adiabatic, '')
             r['transitions'] += 1
 
+        def wrap_activate(reg):
+            orig_act = reg.activate
+
+            def act(previous_reg, t_gap, h_gap, adiabatic):
+                # region change: coolant is mixed, then the walls are solved
+                # without heating from the new coolant state; DASSH evaluates
+                # k at the temperatures it hands to _update_duct meanwhile
+                seen = []
+                orig_ud = reg._update_duct
+
+                def ud(T):
+                    seen.append(float(T))
+                    return orig_ud(T)
+                reg._update_duct = ud
+                tg = np.array(t_gap, dtype=float, copy=True)
+                hg = np.array(h_gap, dtype=float, copy=True)
+                try:
+                    orig_act(previous_reg, t_gap, h_gap, adiabatic)
+                finally:
+                    del reg.__dict__['_update_duct']
+                nd = reg.temp['duct_mw'].shape[0]
+                if len(seen) != nd:       # low-fidelity adiabatic branch: no conduction solve, k immaterial
+                    seen = [float(np.mean(reg.temp['coolant_int']))] * nd
+                check(reg, snapshot(reg), seen, tg, hg, None, adiabatic, '@activate')
+                r['transitions'] += 1
+            reg.activate = act
+
+        for reg_ in asm.region:
+            wrap_activate(reg_)
         asm.power.get_power_sweep = gps
         asm.calculate = calc
         from .. import observe as O
@@ -632,7 +675,8 @@ def main(run):
     run.rule = ('slab: full product kind x rings x conductivity x thickness x innermost film level (one case '
                 'each) x film-coefficient levels of the other layers x temperature pattern x wall heating x gap-htc form x adiabatic (enumerated '
                 'inside the case); one state = one duct of one real _calc_duct_temp call, all inputs distinct. '
-                'sweep: region structure x gap model; one state = one duct after one real Assembly.calculate. '
+                'sweep: region structure x gap model; one state = one duct after one real Assembly.calculate / '
+                'region.activate. '
                 'A case is non-trivial when at least one duct state was evaluated')
     run.assumptions = ['subchannel type map (edge/corner order of duct cells) is trusted (checked by C08)',
                        'dassh.Material evaluates the user conductivity polynomial / table correctly; DASSH '
@@ -649,7 +693,8 @@ def main(run):
     need = [('states_by_role', 'single'), ('states_by_role', 'inner'), ('states_by_role', 'middle'),
             ('states_by_role', 'outer'), ('sweep_states_by_kind', 'rodded1'),
             ('sweep_states_by_kind', 'rodded2'), ('sweep_states_by_kind', 'rodded3'),
-            ('sweep_states_by_kind', 'simple'), ('sweep_states_by_kind', '6node')]
+            ('sweep_states_by_kind', 'simple'), ('sweep_states_by_kind', '6node'),
+            ('sweep_states_by_kind', 'rodded1@activate'), ('sweep_states_by_kind', '6node@activate')]
     for grp, key in need:
         if not (ex.get(grp) or {}).get(key):
             run.violations.append(dict(violation('vacuous-alphabet', {'group': grp, 'class': key},
